@@ -810,26 +810,81 @@ func c02R3(c *Ctx, p *Prog) {
 		}
 		c.Check(lateEP == "", rule, "MakeMove#capture-square-pre-move", cs.Pos(), "CaptureSq(m) is evaluated while EnPassant still holds the pre-move target %s", lateEP)
 	}
-	// fullMoves += int(STM) with STM read before the flip
-	okFull := false
+	// fullMoves += int(STM) with STM denoting the mover: read before the flip (or the flipped colour read after it);
+	// also `if STM == Black { fullMoves++ }` and a pass-through helper around the conversion
+	verdict, why := "undec", "no store to the fullmove counter in MakeMove of a recognised form (fullMoves += int(STM) or an increment under a test of STM)"
 	var fpos token.Pos = fn.Pos()
+	black, _ := p.pkgConstInt("chess.Black")
 	for _, st := range fieldStores(fn, "Board.fullMoves") {
 		fpos = st.Pos()
-		if bo, ok := st.Val.(*ssa.BinOp); ok && bo.Op == token.ADD {
-			for _, pr := range [][2]ssa.Value{{bo.X, bo.Y}, {bo.Y, bo.X}} {
-				if isFieldLoad(pr[0], "Board.fullMoves") && isFieldLoad(stripConv(pr[1]), "Board.STM") {
-					ld := stripConv(pr[1]).(*ssa.UnOp)
-					okFull = true
-					for _, ss := range fieldStores(fn, "Board.STM") {
-						if r, _ := reachAvoiding(ss, ld, nil); r {
-							okFull = false
-						}
+		bo, ok := stripConv(st.Val).(*ssa.BinOp)
+		if !ok || bo.Op != token.ADD {
+			continue
+		}
+		for _, pr := range [][2]ssa.Value{{bo.X, bo.Y}, {bo.Y, bo.X}} {
+			if !isFieldLoad(pr[0], "Board.fullMoves") {
+				continue
+			}
+			if ld, flipped, ok := stmOperand(pr[1], 0); ok {
+				ph := fieldPhase(p, fn, "Board.STM", ld, false)
+				switch {
+				case ph == "?":
+					why = "the side to move added to the fullmove counter is read at a point where it may or may not have been flipped"
+				case (ph == "orig" && !flipped) || (ph == "made" && flipped):
+					verdict, why = "ok", "fullmove number grows by the mover's colour (0 for White, 1 for Black)"
+				case ph == "same":
+					why = "MakeMove adds the side to move to the fullmove counter but the flip of the side to move is not found"
+				default:
+					verdict, why = "fail", "the fullmove counter grows by the colour of the side to move AFTER the move (the opponent's): it advances after White's moves instead of Black's"
+				}
+				continue
+			}
+			if k, isc := constOf(pr[1]); isc && k == 1 {
+				// increment under a test of the side to move
+				conds := controllingConds(st.Block())
+				if len(conds) != 1 {
+					continue
+				}
+				cmp, isCmp := conds[0].Cond.(*ssa.BinOp)
+				if !isCmp || (cmp.Op != token.EQL && cmp.Op != token.NEQ) {
+					continue
+				}
+				for _, q := range [][2]ssa.Value{{cmp.X, cmp.Y}, {cmp.Y, cmp.X}} {
+					kk, isK := constOf(q[1])
+					ld, flipped, okS := stmOperand(q[0], 0)
+					if !isK || !okS {
+						continue
+					}
+					// the colour for which the increment runs, in terms of the loaded STM
+					eq := (cmp.Op == token.EQL) == conds[0].True
+					col := kk
+					if !eq {
+						col = kk ^ 1
+					}
+					if flipped {
+						col ^= 1
+					}
+					ph := fieldPhase(p, fn, "Board.STM", ld, false)
+					switch {
+					case ph == "?" || ph == "same":
+						why = "the test of the side to move that guards the fullmove increment is read in a state that is not decided"
+					case (ph == "orig") == (col == black):
+						verdict, why = "ok", "fullmove number is incremented exactly when Black has moved"
+					default:
+						verdict, why = "fail", "the fullmove counter is incremented after White's moves instead of Black's"
 					}
 				}
 			}
 		}
 	}
-	c.Check(okFull, rule, "MakeMove#fullmoves", fpos, "fullmove number grows by the mover's colour (0 for White, 1 for Black) read before the side-to-move flip")
+	switch verdict {
+	case "ok":
+		c.Ok(rule, "MakeMove#fullmoves", fpos, "%s", why)
+	case "fail":
+		c.Fail(rule, "MakeMove#fullmoves", fpos, "%s", why)
+	default:
+		c.Undec(rule, "MakeMove#fullmoves", fpos, "%s", why)
+	}
 }
 
 // ---- R4 ----
